@@ -49,6 +49,23 @@ pub fn run(k: &str, a: &Value) -> Option<Value> {
             o["back"] = st3(&c.at_back());
             o
         }
+        "curve_closest" => {
+            if a["pts"][0].as_array().unwrap().len() == 2 {
+                let c = match Curve2::from_points(&pts2(&a["pts"]), f(&a["tol"]), a["force_closed"].as_bool().unwrap_or(false)) { Ok(c) => c, Err(_) => return Some(json!({"err": true})) };
+                let q = { let x = fv(&a["q"]); engeom::Point2::new(x[0], x[1]) };
+                let mut o = c2o(&c);
+                o["station"] = st2(&c.at_closest_to_point(&q));
+                o["dist"] = fo(c.dist_to_point(&q));
+                o
+            } else {
+                let c = match Curve3::from_points(&pts3(&a["pts"]), f(&a["tol"])) { Ok(c) => c, Err(_) => return Some(json!({"err": true})) };
+                let q = { let x = fv(&a["q"]); engeom::Point3::new(x[0], x[1], x[2]) };
+                let mut o = c3o(&c);
+                o["station"] = st3(&c.at_closest_to_point(&q));
+                o["dist"] = fo(c.dist_to_point(&q));
+                o
+            }
+        }
         "curve2_portion" => {
             let c = match Curve2::from_points(&pts2(&a["pts"]), f(&a["tol"]), a["force_closed"].as_bool().unwrap()) { Ok(c) => c, Err(_) => return Some(json!({"err": true})) };
             let op = a["op"].as_str().unwrap();
